@@ -481,4 +481,21 @@ example (hc : HC Nat) (hinj : ∀ a b, hc.H a = hc.H b → a = b) (hemb : ∀ d,
     Union types and `Any` are not representable in `STy` (they are not `Unamb`); `Path` values are encoded as the
     unsupported token and belong to no type. -/
 
+/-! ### `NoCfgDefault` is satisfiable on a non-trivial graph (audit round 8, item 6)
+    two configurations, node 0 refers to node 1 and declares a list default and a scalar default (no configuration object in
+    any declared default), node 1 declares a dict default. -/
+
+def noCfgG : Graph :=
+  { nodes := [{ typeId := [97], args := [{ name := [120], value := .ref 1 },
+                                          { name := [121], required := false, default := some (.list [.int 1, .int 2]), value := .list [.int 3] },
+                                          { name := [122], required := false, default := some (.int 5), value := .int 5 }] },
+              { typeId := [98], args := [{ name := [123], required := false, default := some (.dict [[107]] [.int 0]), value := .dict [[107]] [.int 9] }] }] }
+
+example : NoCfgDefault noCfgG := by
+  intro n a ha
+  match n with
+  | 0 => simp [noCfgG, Graph.node] at ha; rcases ha with rfl | rfl | rfl <;> decide
+  | 1 => simp [noCfgG, Graph.node] at ha; subst ha; decide
+  | n + 2 => simp [noCfgG, Graph.node] at ha
+
 end XpmVerif.C03
